@@ -1,5 +1,7 @@
 import FgaVerif.Gen.Atn
 import FgaVerif.Model.Listener
+import FgaVerif.Model.AtnGraph
+import FgaVerif.Gen.Grammar
 /-!
 # C19 — the Go, JS and Java parsers are generated from the one grammar in the repository
 
@@ -92,6 +94,42 @@ theorem listener_callbacks_exist :
     (goListenerCallbacks.all fun (_, n) => Model.Listener.callbackRules.contains (decapitalize n)) = true ∧
     (Model.Listener.callbackRules.all fun r => goListenerCallbacks.any fun (_, n) => decapitalize n == r) = true ∧
     goListenerCallbacks.length = 20 := by
+  decide +kernel
+
+/-! ## The parser grammar and the automaton the generated parsers embed
+
+    `Gen/Grammar.lean` is the translation of `OpenFGAParser.g4` made on this run; `goParserAtn` is the
+    serialized automaton found in the generated Go parser (equal to the JS and Java copies by
+    `parser_atn_equal`).  The automaton is read back (`AtnGraph.deserialize`) and compared with the
+    grammar rule by rule at the precision of Glushkov's local sets: nullable, first symbols, last
+    symbols, and which symbol may follow which (symbols = token types and rule references; token sets
+    and complements expanded).  An edit of a rule body in the `.g4` without regenerating the parsers -
+    an added or removed alternative, token or rule reference, a changed `?`/`*`/`+` - changes one of
+    these sets and this theorem stops checking.  (Equality of local sets is not language equality: two
+    bodies with the same local sets can differ, e.g. in how often a symbol may repeat.) -/
+
+open FgaVerif.Model.AtnGraph in
+def parserAtn : Atn := (deserialize goParserAtn).getD default
+
+open FgaVerif.Model.AtnGraph in
+def resolvedRules : List NGram :=
+  FgaVerif.Gen.Grammar.rules.map (fun r => resolve parserAtn.maxTok goParserSymbolic goParserRules r.2)
+
+open FgaVerif.Model.AtnGraph in
+def ruleAgrees (i : Nat) : Bool :=
+  match resolvedRules[i]? with
+  | some g => atnLocal parserAtn i == gramLocal g
+  | none => false
+
+theorem parser_atn_deserializes : (FgaVerif.Model.AtnGraph.deserialize goParserAtn).isSome = true := by
+  decide +kernel
+
+/-- the rules of the `.g4`, in order, are the rule table of the generated parsers -/
+theorem grammar_rule_names : FgaVerif.Gen.Grammar.rules.map (·.1) = goParserRules := by decide +kernel
+
+/-- every rule body of the `.g4` has the local sets of its sub-automaton in the embedded ATN -/
+theorem grammar_matches_atn :
+    (List.range FgaVerif.Gen.Grammar.rules.length).all ruleAgrees = true ∧ 20 < FgaVerif.Gen.Grammar.rules.length := by
   decide +kernel
 
 end FgaVerif.Props.C19
